@@ -133,6 +133,9 @@ class Constant(Leaf):
 
     def _pretty(self, lean=False):
         _ = lean
+        if '\n' in str(self.literal):
+            # NOTE: a backquoted text cannot span lines, a quoted string inside backquotes can say so
+            return f'`{self.literal!r}`'
         return f'`{self.literal!s}`'
 
     @cached_property
